@@ -192,13 +192,17 @@ def fam_put(n):
         opts = ['absent', None, 'missing'] + nodes
         y = opts[symex.choose(len(opts))]
         rename = symex.choose(2) == 1
+        # the parent may be named in any spelling the schema's uuid format
+        # admits: canonical, upper case, without dashes
+        spelling = symex.choose(3) if isinstance(y, int) else 0
         minor = app.sym_minor(ctx)
         with build(ctx, par) as w:
             pre = w.dump()
             body = {'name': 'p%d%s' % (x, 'x' if rename else '')}
             if y != 'absent':
                 body['parent_provider_uuid'] = None if y is None else \
-                    MISSING if y == 'missing' else U(y)
+                    MISSING if y == 'missing' else (
+                        U(y), U(y).upper(), U(y).replace('-', ''))[spelling]
             r = app.call('PUT', '/resource_providers/' + U(x), body,
                          version='sym')
             post = w.dump()
@@ -216,7 +220,14 @@ def fam_put(n):
                 ok = m >= 14
             else:
                 ok = m >= 37
-            expect(ctx, ok, r, 'PUT %d parent %s->%s' % (x, cur, y))
+            if spelling == 0:
+                expect(ctx, ok, r, 'PUT %d parent %s->%s' % (x, cur, y))
+            elif r.status < 400:
+                # a non-canonical spelling may be refused as "no such
+                # parent"; if it is honoured it must be honoured as that
+                # provider, under the same rules
+                expect(ctx, ok, r, 'PUT %d parent %s->%s (spelling %d)' % (
+                    x, cur, y, spelling))
             if r.status >= 400:
                 obligation(ctx, 'rejection-changes-nothing',
                            zbool(rel_diff(pre, post, ('resource_providers',))),
